@@ -166,12 +166,12 @@ def lattice(tier):
         tzs = [(None, 0), ("-u", 0), ("-z=-03:30", -210)]
         dfmts = [None, "%Y-%m-%dT%H:%M:%S%.6f%:z"]
         pseps = [":", " - "]
-        seps = [("", b""), ("XX", b"XX"), ("\\n\\t", b"\n\t")]
+        seps = [("", b""), ("XX", b"XX"), ("\\n\\t", b"\n\t"), ("~\\n", b"~\n")]
     else:
         tzs = [(None, 0), ("-u", 0), ("-l", 0), ("-z=-03:30", -210), ("-z=+05:45", 345), ("-z=+00", 0)]
         dfmts = [None, "%s", "%Y-%m-%dT%H:%M:%S%.6f%:z", "%Y%m%d %H%M%S%.9f %z"]
         pseps = [":", "|", " - ", ""]
-        seps = [("", b""), ("XX", b"XX"), ("\\0", b"\x00"), ("\\n\\t", b"\n\t"), ("\\\\", b"\\")]
+        seps = [("", b""), ("XX", b"XX"), ("\\0", b"\x00"), ("\\n\\t", b"\n\t"), ("~\\n", b"~\n"), ("\\\\", b"\\")]
     for f, al, (tz, tzmin), df, ps, (sa, sb) in itertools.product(files, aligns, tzs, dfmts, pseps, seps):
         if al and not f:
             continue
@@ -206,7 +206,9 @@ def build_sets(work, tier):
     common.write_file(os.path.join(work, "s1", "a.log"), d1)
     t2 = [(E * 1000 + 2000, b"nihon"), (E * 1000 + 3000, b"go", [b"\ttabbed"])]
     common.write_file(os.path.join(work, "s1", "sub", "日本語のログ.log"), gen.text_log(t2))
-    common.write_file(os.path.join(work, "s1", "x.wtmp"), gen.utmp_file([(E + 1, 500000, b"A"), (E + 3, 0, b"B")]))
+    import layouts
+    fat = layouts.record(layouts.layout("linux_x86_utmpx"), E + 4, 250000, b"K9q9", 9, fat=True)      # the longest text a record can print
+    common.write_file(os.path.join(work, "s1", "x.wtmp"), gen.utmp_file([(E + 1, 500000, b"A"), (E + 3, 0, b"B")]) + fat + gen.utmp_file([(E + 5, 0, b"C")]))
     common.write_file(os.path.join(work, "s1", "é.log"), gen.text_log([(E * 1000 + 2500, b"accent")]))
     sets.append(("s1", ["a.log", "sub/日本語のログ.log", "x.wtmp", "é.log"],
                  {"a.log": [(E * 1000 + 1000) * ms, (E * 1000 + 3000) * ms, (E * 1000 + 3000) * ms]}))
